@@ -42,7 +42,7 @@ def required(tier):
 
 def gen_cases(seed, tier):
     rng = np.random.default_rng([seed, 14])
-    n = 320 if tier == 'quick' else 8000
+    n = 320 if tier == 'quick' else 80000
     cases = []
     for i in range(n):
         cfg = work_raw.gen_config(rng, tier, i=i, P=int(common.pick(rng, [8, 16, 32])), tones=[], nblocks=int(rng.integers(1, 7)),
